@@ -271,3 +271,19 @@ O("C10.esccpy", "C10", "h_C10.c", "h_C10_esccpy",
   ["esccpy"], dfcc=True, enforce="esccpy", loop_contracts=True, solver=["minisat", "kissat"], replay=False,
   replay_note="frame variant (is_fresh inputs)")
 # C10.pull (harness h_C10_pull exists): no answer within 900 s at chunk length 12 with the callees by contract -- not registered
+
+# ------------------------------------------------------------------ C12
+P("C12", level="proof",
+  level_text="Contracts of the three callbacks that implement the limit, on the real echsd.c with system/libev calls replaced by recording stubs: for every N in 1..62 and unset, every running count and spawn outcome, task_cb starts and counts the occurrence below the limit and reports it as not run at the limit, keeps the invariant running <= N; chld_cb uncounts; a refusal of one task leaves the start of another untouched (two-call harness over the static argv). All loop-free: complete proofs. The invariant over whole histories follows by induction over these per-callback contracts (prose).",
+  level_note="Trusted: CBMC semantics; recorder stubs for pipe/posix_spawn*/openat/lseek/close/ev_*; vtodoify's body dropped (writes the request text only). Not covered: that echsx honours --no-run, real process lifetimes, a child of a freed task (chld_cb on a recycled task object).",
+  not_covered=["echsx honouring the no-run flag", "chld_cb for a child whose task object was freed and recycled", "interleavings as such (libev)"])
+E12 = dict(gi_steps=[["--remove-function-body", "vtodoify"], ["--generate-function-body", "vtodoify", "--generate-function-body-options", "nondet-return"]],
+           solver=["minisat", "kissat"], timeout={"quick": 600, "thorough": 1800}, **ECHSD_NATIVE)
+O("C12.task_cb", "C12", "h_C12.c", "h_C12_task_cb",
+  "task_cb: one request to the executor per due occurrence; below the limit (or unlimited) it is started, counted and supervised; at the limit it is reported as not run and not counted; running <= N is preserved; N = 1..62 and unset",
+  ["task_cb", "run_task", "make_chld"], **E12)
+O("C12.chld_cb", "C12", "h_C12.c", "h_C12_chld_cb",
+  "chld_cb: a finished execution is uncounted and its watcher stopped", ["chld_cb", "free_chld"], **E12)
+O("C12.two_tasks", "C12", "h_C12.c", "h_C12_two_tasks",
+  "task A refused at its limit, then task B below its limit: B is started normally (the static argv of run_task carries nothing over), only B's count changes",
+  ["task_cb", "run_task"], **E12)
